@@ -137,14 +137,15 @@ ManyAlternatives(nroot, nadd) ==
 ManyTypes == IF Rich THEN <<ManyEnum(130, 0), ManyEnum(3, 70), ManyEnum(257, 0), ManyAdditions(65), ManyAdditions(3),
                             ManyAdditions(7), ManyAdditions(8), ManyAdditions(9), ManyAdditions(16), ManyAdditions(64),
                             ManyAlternatives(3, 66), ManyAlternatives(130, 0)>>
-             ELSE <<ManyEnum(3, 70), ManyAdditions(65), ManyAdditions(8)>>
+             ELSE <<ManyEnum(3, 70), ManyAdditions(65), ManyAdditions(8),
+                    ManyAlternatives(2, 1)>>      \* a small extensible CHOICE: wrapped, it is followed by other components
 
 PrimTypes == <<TBool, TNull, TOid, TReal>> \o IntTypes \o EnumTypes \o BitsTypes \o OctsTypes \o StrTypes \o ManyTypes
 
 \* big payloads: only at depth 0, marked by gDepth = BigMark
 BigMark == 100
 BigLens == IF Rich THEN <<127, 128, 255, 256, 16383, 16384, 16385, 32768, 49152, 65535, 65536, 70000>>
-           ELSE <<128, 16384>>
+           ELSE <<128, 16384, 49152, 65536>>      \* one, three, four (+ a final empty) fragments
 BigTypes ==
   <<TOcts(NoSz), TBits(NoSz, <<>>), TStr("IA5", NoSz, NoAl), TStr("UTF8", NoSz, NoAl), TStr("Numeric", NoSz, NoAl),
     TOf("SEQOF", TBool, NoSz), TOf("SEQOF", TIntR(B(0), B(255), FALSE), NoSz), TOcts(Sz(0, 65535, FALSE)),
@@ -186,7 +187,7 @@ BigValues(t) ==
 Carriers ==
   <<TBool, TNull, TIntN, TIntR(B(0), B(255), FALSE), TIntR(B(0), B(10), TRUE), TIntR(B(1), B(65536), FALSE),
     EnumTypes[2], EnumTypes[6], BitsTypes[1], BitsTypes[10], BitsTypes[4], OctsTypes[1], OctsTypes[3],
-    OctsTypes[7], StrTypes[1], StrTypes[5], StrTypes[11], StrTypes[14], TReal, TOid>>
+    OctsTypes[7], StrTypes[1], StrTypes[5], StrTypes[11], StrTypes[14], TReal, TOid, ManyAlternatives(2, 1)>>
 
 ------------------------------------------------------------------------------
 (* boundary values                                                          *)
